@@ -439,6 +439,14 @@ func (mi *ModInfo) callEffects(f *ssa.Function, ci ssa.CallInstruction, add func
 		}
 		return
 	}
+	if callee.Synthetic != "" {
+		// bound method values and thunks (f := obj.method; f()): what runs is the declared method
+		if obj, ok := callee.Object().(*types.Func); ok {
+			if g := w.Prog.FuncValue(obj); g != nil {
+				callee = g
+			}
+		}
+	}
 	if callee.Pkg != nil && w.InRepo[callee.Pkg] && callee.Blocks != nil {
 		callees[callee] = true
 		return
